@@ -23,10 +23,10 @@ import c07_gen as G
 ck = Check("C07")
 QUICK = ck.tier == "quick"
 T0 = time.time()
-BUDGET = 150 if QUICK else 1500           # seconds for the tie stages (after builds)
+BUDGET = 150 if QUICK else 1000          # seconds for the tie stages (after builds)
 
 SUPPORT = ["MirVerif.Model.CArith", "MirVerif.Model.CArithBf", "MirVerif.Model.CArithExpr",
-           "MirVerif.Lemmas.CArith", "MirVerif.Lemmas.CArithFold", "MirVerif.Lemmas.CArithBf"]
+           "MirVerif.Lemmas.CArith", "MirVerif.Lemmas.CArithFold", "MirVerif.Lemmas.CArithBf", "MirVerif.Lemmas.CArithSpec"]
 proof_ok = ck.proof_gate(["MirVerif.Props.C07"], support_modules=SUPPORT,
                          bridge_modules=["MirVerif.Lemmas.BridgeC07"], exes=["mirdrv_c07"],
                          translators=["c07_cfun.py"])
@@ -363,7 +363,7 @@ rng = ck.rng
 pair_cursor = [rng.below(144)]
 BASELINE_MODE = bool(os.environ.get("VERIF_C07_BASELINE"))   # maintenance: rewrite corpus/C07/ctests-baseline.json
 N_TARGET = 0 if BASELINE_MODE else 160 if QUICK else 4000
-GEN_BUDGET = BUDGET * (0.62 if QUICK else 0.7)
+GEN_BUDGET = BUDGET * (0.62 if QUICK else 0.65)
 tg = time.time()
 progs_meta = []          # (name, units) of programs that ran clean, for the oracle stages
 parse_line = re.compile(r"^(\S+) (-?\d+)$")
